@@ -241,31 +241,28 @@ package workflow
 //@ func (r *aggregatorRole) setParent(role Updatable)
 //@   property C14
 //@   requires r != nil && role != nil
-//@   requires r.Defaults != r.Vars && r.Defaults != r.UserVars && r.Vars != r.UserVars
 //@   modifies r.parent, r.Defaults.parent, r.Vars.parent, r.UserVars.parent
 //@   ensures r.parent == role
-//@   ensures r.Defaults != nil ==> r.Defaults.parent == old(nodeDefaults(role))
-//@   ensures r.Vars != nil ==> r.Vars.parent == old(nodeVars(role))
+//@   ensures r.Defaults != nil && r.Defaults != r.Vars && r.Defaults != r.UserVars ==> r.Defaults.parent == old(nodeDefaults(role))
+//@   ensures r.Vars != nil && r.Vars != r.UserVars ==> r.Vars.parent == old(nodeVars(role))
 //@   ensures r.UserVars != nil ==> r.UserVars.parent == old(nodeUserVars(role))
 
 //@ func (t *taskRole) setParent(role Updatable)
 //@   property C14
 //@   requires t != nil && role != nil
-//@   requires t.Defaults != t.Vars && t.Defaults != t.UserVars && t.Vars != t.UserVars
 //@   modifies t.parent, t.Defaults.parent, t.Vars.parent, t.UserVars.parent
 //@   ensures t.parent == role
-//@   ensures t.Defaults != nil ==> t.Defaults.parent == old(nodeDefaults(role))
-//@   ensures t.Vars != nil ==> t.Vars.parent == old(nodeVars(role))
+//@   ensures t.Defaults != nil && t.Defaults != t.Vars && t.Defaults != t.UserVars ==> t.Defaults.parent == old(nodeDefaults(role))
+//@   ensures t.Vars != nil && t.Vars != t.UserVars ==> t.Vars.parent == old(nodeVars(role))
 //@   ensures t.UserVars != nil ==> t.UserVars.parent == old(nodeUserVars(role))
 
 //@ func (t *callRole) setParent(role Updatable)
 //@   property C14
 //@   requires t != nil && role != nil
-//@   requires t.Defaults != t.Vars && t.Defaults != t.UserVars && t.Vars != t.UserVars
 //@   modifies t.parent, t.Defaults.parent, t.Vars.parent, t.UserVars.parent
 //@   ensures t.parent == role
-//@   ensures t.Defaults != nil ==> t.Defaults.parent == old(nodeDefaults(role))
-//@   ensures t.Vars != nil ==> t.Vars.parent == old(nodeVars(role))
+//@   ensures t.Defaults != nil && t.Defaults != t.Vars && t.Defaults != t.UserVars ==> t.Defaults.parent == old(nodeDefaults(role))
+//@   ensures t.Vars != nil && t.Vars != t.UserVars ==> t.Vars.parent == old(nodeVars(role))
 //@   ensures t.UserVars != nil ==> t.UserVars.parent == old(nodeUserVars(role))
 
 // C14: the adapter between the environment and the root role stores the three getters it is given in the slots its
@@ -461,3 +458,36 @@ package workflow
 //@   ensures stage == template.STAGE0 ==> asked
 //@   ensures stage == template.STAGE0 && !en ==> result != nil && result is *template.RoleDisabledError
 //@   ensures !(stage == template.STAGE0 && !en) ==> result == err
+
+// ---------------------------------------------------------------------------------------------------------
+// C14: an included subworkflow hangs below the include role's OWN level of each kind: the loader attaches the loaded
+// root to the include role (so its three maps wrap the include role's maps); swapping the loaded root in keeps those
+// links - only the parent pointer and the name are restored - so the include role's own defaults, vars and locals stay
+// between the included roles and the include role's ancestors.
+//@ closure Load #1
+//@   property C14
+//@   ghostvar attached bool = false
+//@   on call (*aggregatorRole).setParent : assert arg0 == root && arg1 == parent ; attached = true
+//@   ensures err == nil && parent != nil ==> attached
+
+//@ func (r *includeRole) ProcessTemplates(workflowRepo repos.IRepo, loadSubworkflow LoadSubworkflowFunc, baseConfigStack map[string]string) (err error)
+//@   property C14
+//@   ghostvar ownD *gera.WrapMap[string,string] = nil
+//@   ghostvar ownV *gera.WrapMap[string,string] = nil
+//@   ghostvar ownU *gera.WrapMap[string,string] = nil
+//@   ghostvar ownP Updatable = nil
+//@   ghostvar loaded bool = false
+//@   on call <dynamic> : assert arg1 == iface(r) ; ownD = r.Defaults ; ownV = r.Vars ; ownU = r.UserVars ; ownP = r.parent
+//@   on aftercall <dynamic> : loaded = true ; assume result2 == nil ==> result0 != nil && result0.Defaults != nil && result0.Vars != nil && result0.UserVars != nil && result0.Defaults.parent == iface(ownD) && result0.Vars.parent == iface(ownV) && result0.UserVars.parent == iface(ownU) && r.parent == ownP
+//@   on call (*aggregatorRole).ProcessTemplates : assert loaded && r.Defaults.parent == iface(ownD) && r.Vars.parent == iface(ownV) && r.UserVars.parent == iface(ownU) && r.parent == ownP
+
+// C15: a template error while resolving an iterator's range expression makes the load fail (the JSON decoding of the
+// resolved text is outside the contracts)
+//@ func (f *iteratorRangeExpr) GetRange(varStack map[string]string) (ran []string, err error)
+//@   property C15
+//@   ghostvar execErr bool = false
+//@   ghostvar decoded bool = false
+//@   on aftercall (template.Fields).Execute : execErr = result != nil
+//@   on call json.Unmarshal : assert !execErr ; decoded = true
+//@   ensures execErr ==> err != nil
+//@   ensures err == nil ==> decoded
